@@ -126,8 +126,13 @@ class Scheduler(object):
             # called from outside the scheduled world (controller, __del__): plain effect
             return effect()
         if self.aborting:
-            if enabled():
-                return effect()
+            # unwinding: nothing may run on (a loop in the code under test would spin for ever);
+            # only releases are let through so that `with lock:` blocks unwind quietly
+            if label.endswith(".rel"):
+                try:
+                    return effect()
+                except Exception:
+                    return None
             raise SchedAbort()
         rec.pending = (label, enabled)
         self._dispatch(rec)
